@@ -1,6 +1,9 @@
 package main
 
 import (
+	"bufio"
+	"bytes"
+	"encoding/json"
 	"fmt"
 	"os"
 	"os/exec"
@@ -350,6 +353,89 @@ for sid in sorted(os.listdir(root)):
 		r.Inconclusive("no Python module could be imported: " + truncate(string(pout), 400))
 	}
 
+	// ---- TypeScript: every tree is transformed, parsed, linked and evaluated by Node (>= 22.13)
+	if node := findNode22(); node == "" {
+		r.CaseInconclusive("no Node >= 22.13 found: TypeScript is only scanned for placeholders")
+	} else {
+		tsroot := filepath.Join(root, "tsroot")
+		var tsIn bytes.Buffer
+		nTrees := 0
+		for _, ru := range runs {
+			tf := ru.files.under("typescript")
+			if len(tf) == 0 {
+				continue
+			}
+			_ = tf.writeTo(filepath.Join(tsroot, ru.id))
+			b, _ := json.Marshal(map[string]string{"id": ru.id, "root": filepath.Join(tsroot, ru.id)})
+			tsIn.Write(b)
+			tsIn.WriteByte('\n')
+			nTrees++
+		}
+		cmd := exec.Command(node, "--experimental-vm-modules", "--no-warnings", filepath.Join(verifDir(), "ts", "driver.mjs"))
+		cmd.Stdin = &tsIn
+		var tsErr bytes.Buffer
+		cmd.Stderr = &tsErr
+		tsOut, terr := cmd.Output()
+		if terr != nil {
+			r.CaseInconclusive("TypeScript driver failed: " + terr.Error() + " " + truncate(tsErr.String(), 300))
+		}
+		tsOK, tsDefaults := 0, 0
+		sc := bufio.NewScanner(bytes.NewReader(tsOut))
+		sc.Buffer(make([]byte, 1<<20), 1<<26)
+		for sc.Scan() {
+			var tr struct {
+				ID    string `json:"id"`
+				Fatal string `json:"fatal"`
+				Files []struct {
+					File, Stage, Error string
+				} `json:"files"`
+				Defaults map[string]json.RawMessage `json:"defaults"`
+			}
+			if json.Unmarshal(sc.Bytes(), &tr) != nil || tr.ID == "" {
+				continue
+			}
+			ru := byID[tr.ID]
+			if ru == nil {
+				continue
+			}
+			if tr.Fatal != "" {
+				r.CaseInconclusive("TypeScript driver: " + tr.Fatal)
+				continue
+			}
+			if len(tr.Files) == 0 {
+				tsOK++
+			}
+			seen := map[string]bool{}
+			for _, f := range tr.Files {
+				key := "typescript-load/" + f.Stage + "/" + maskGoDiag(f.Error)
+				if f.Stage == "typescript-syntax" {
+					// the parser's message says little: a reserved word used as a parameter name is the usual cause
+					if m := tsKeywordParamRe.FindStringSubmatch(string(ru.files["typescript/"+f.File])); m != nil {
+						key = "typescript-load/reserved-word-used-as-parameter/" + m[1]
+					}
+				}
+				if seen[key] {
+					continue
+				}
+				seen[key] = true
+				r.Violation(key, fmt.Sprintf("the run succeeded but generated TypeScript does not load: %s (%s): %s", f.File, f.Stage, f.Error), replayOf(ru))
+			}
+			for name, raw := range tr.Defaults {
+				tsDefaults++
+				if bytes.Contains(raw, []byte(`"__error"`)) {
+					key := "typescript-load/default-function-throws/" + maskGoDiag(string(raw))
+					if !seen[key] {
+						seen[key] = true
+						r.Violation(key, fmt.Sprintf("the run succeeded but calling %s of the generated TypeScript throws: %s", name, raw), replayOf(ru))
+					}
+				}
+			}
+		}
+		r.Count("typescript_trees", nTrees)
+		r.Count("typescript_trees_loaded_ok", tsOK)
+		r.Count("typescript_default_functions_called", tsDefaults)
+	}
+
 	// ---- Java: javac against the Jackson jars
 	jars, _ := filepath.Glob(filepath.Join(jacksonDir, "jackson-*.jar"))
 	if len(jars) == 0 {
@@ -461,7 +547,7 @@ for sid in sorted(os.listdir(root)):
 		r.Inconclusive("no pipeline run succeeded")
 	}
 	r.Sample(map[string]any{"flag_rows": len(rows), "languages": 7})
-	r.Assumptions = append(r.Assumptions, "TypeScript and PHP are not compiled (no tsc/php in the image): placeholder scan only", "Java is compiled against the Jackson 2.15.1 jars found in the image")
+	r.Assumptions = append(r.Assumptions, "TypeScript is not type-checked (no tsc in the image): every file is transformed to JavaScript, parsed, linked within its tree, evaluated and its default* functions called under Node 22; PHP is not compiled (no php in the image): placeholder scan only", "Java is compiled against the Jackson 2.15.1 jars found in the image")
 }
 
 // cogDumpHelper extracts the Dump helper from the runtime snapshot committed in the repository
@@ -510,3 +596,23 @@ func c02Extras(caps amCaps) []*amSchema {
 	out = append(out, mk(&amObject{"Odd", st(fld("a-b", true, ty("string")), fld("9lives", false, ty("string")), fld("with space", false, ty("bool")), fld("dotted.name", false, ty("string")))}))
 	return out
 }
+
+// findNode22 looks for a Node.js that offers module.stripTypeScriptTypes (>= 22.13): PATH first, then nvm's directory.
+func findNode22() string {
+	var cands []string
+	if p, err := exec.LookPath("node"); err == nil {
+		cands = append(cands, p)
+	}
+	more, _ := filepath.Glob("/root/.nvm/versions/node/v2[2-9]*/bin/node")
+	sort.Sort(sort.Reverse(sort.StringSlice(more)))
+	cands = append(cands, more...)
+	for _, c := range cands {
+		out, err := exec.Command(c, "-e", "process.stdout.write(String(typeof require('node:module').stripTypeScriptTypes))").Output()
+		if err == nil && strings.TrimSpace(string(out)) == "function" {
+			return c
+		}
+	}
+	return ""
+}
+
+var tsKeywordParamRe = regexp.MustCompile(`[(,]\s*(in|import|class|new|default|function|typeof|delete|var|void|with|export|return|switch|this|throw|try|catch|finally|for|if|else|do|while|break|continue|case|const|enum|extends|super|null|true|false|instanceof)\s*[:?]`)
